@@ -5,7 +5,7 @@ V = os.path.dirname(os.path.dirname(os.path.abspath(__file__)))
 TECH = 'Lean 4 theorems over a hand-written model + differential correspondence check against the crate'
 P = {
  'C01': ('all nine decode entry points never take a panic outcome nor exhaust loop fuel, for every byte string (Safe.decodeX_noPanic/noFuel); clause "returned values can be cloned/compared/formatted" is exercised under catch_unwind, not proved (partial)', '7.C01'),
- 'C02': ('name-level round trip after any encoder history proved (encName_transparent + name_complete); message-level round trip = composition of C03 soundness, C05 encoder=>grammar, C04 completeness (see Props/C02.lean for what is already composed); rt.dns stream runs the fuzz-target contract on the crate field by field', '7.C02'),
+ 'C02': ('RT.roundtrip: for every byte string the model decoder accepts with uncompressed size <= 65535, encoding succeeds and decodes to the same message up to ASCII case of names (composition of C03 soundness, WF of decoded values, C08 totality, C05 encoder=>grammar, C04 completeness); name-level round trip after any encoder history; rt.dns stream runs the fuzz-target contract on the crate field by field', '7a row C02'),
  'C03': ('decodeDns_sound: every accepted byte string satisfies the independent relational wire grammar Spec/Wire.lean for the returned value, for all inputs; named corollaries (class supported, IN-only, no duplicate SvcParam, names <= 255, value on wire)', '7.C03'),
  'C04': ('decodeDns_complete: every buffer satisfying the grammar for a value (any layout) is decoded to exactly that value (Lemmas/Complete*.lean; name layer name_complete); layouts exercised on the crate by a layout-parameterised reference renderer', '7.C04'),
  'C05': ('encoder output satisfies the grammar with backward pointers <= 16 hops for the written value up to ASCII case (Lemmas/EncSpec*.lean; names: encName_spec for every history); crate bytes are re-read by the proved model decoder and a strict layout walker', '7.C05'),
@@ -13,7 +13,7 @@ P = {
  'C07': ('termination (fuel never exhausted) and linear work bound 304*len+304 for every accepted message, cyclic names are errors, <= 17 hops and <= 255 octets per name; failing-run cost enforced on the crate by the verif octet budget (partial)', '7.C07'),
  'C08': ('encoder: no panic for all values, error kinds and causes, limits on success (Lemmas/EncLim*.lean; name writers: all states); known findings K3, K4a-c recorded with Lean witnesses', '7.C08'),
  'C09': ('exact framing: record = RDLENGTH, option/APL item/SvcParam = own length, sections = counts, nothing follows; readers never leave their window', '7.C09'),
- 'C10': ('element round trips: flags (all values with 4-bit rcode), the four 2-octet codes (all 65536), names from a fresh encoder; struct encode == RR encode and embedding checked on the crate', '7.C10'),
+ 'C10': ('element round trips proved for flags (all values with 4-bit rcode), the four 2-octet codes (all 65536), names, questions and all 46 record types (RT.rr_roundtrip); embedding as first element of a message proved for every well-formed record up to the shift of pointer offsets by 12 (elem_embeds_shift), identical octets when pointer-free and for questions; struct encode == RR encode, own-decoder round trip and the shift rule checked on the crate', '7a row C10'),
  'C11': ('all 65536 flag words (decode iff, bit positions, re-encode, error kind), 13 regenerated enum tables: bijective, equal to hand-transcribed IANA registries, rejection carries the code; exhaustive correspondence run', '7.C11'),
  'C12': ('state machines of ECS / APItem / Cookie / DomainName: invariant for every finite history, failing call leaves value unchanged, no panic; validators of Tag/PSDN/ISDN/SA', '7.C12'),
  'C13': ('equality = ASCII-case equality (equivalence, same label lengths), parse(display n) = n for dot-free names incl. root, len = printed length, same limits via parse / append / decode', '7.C13'),
